@@ -116,16 +116,17 @@ func (this *Dataset) SizeInfo(ctx context.Context) (uint64, uint64, error) {
 			errorCh <- nil
 		} else {
 			wg.Add(1)
+			p := partition // the goroutine must not share the loop variable
 			go func(ctx context.Context, wg *sync.WaitGroup, errorCh chan error, len *uint64, bytesSize *uint64) {
 				defer wg.Done()
-				client, err := this.getDataManagerClient(ctx, partition.randomNodeId())
+				client, err := this.getDataManagerClient(ctx, p.randomNodeId())
 				if err != nil {
 					errorCh <- err
 					return
 				}
 				resp, err := client.PartitionInfo(ctx, &pb.PartitionInfoRequest{
 					DatasetId:   this.id.Bytes(),
-					PartitionId: partition.id.Bytes(),
+					PartitionId: p.id.Bytes(),
 				})
 				if err != nil {
 					errorCh <- err
